@@ -258,7 +258,8 @@ def check(run, prog):
             ("DualPolarizationSignal", "complex128", Num(s), s, "samples"),
             ("Signal", "complex64", Num(sp.Symbol("sq", real=True) / Hz, kind="quantity"), sp.Symbol("sq", real=True) * SR, "time Quantity"),
             ("IntensitySignal", "float64", Num(sp.Symbol("sq", real=True) / Hz, kind="quantity"), sp.Symbol("sq", real=True) * SR, "time Quantity"),
-            ("BasebandSignal:dask", "complex128", Num(s), s, "samples")]
+            ("BasebandSignal:dask", "complex128", Num(s), s, "samples"),
+            ("Signal", "int16", Num(s), s, "samples")]
     for clsname, dtype, shiftv, s_eff, what in scen:
         backend = "dask" if clsname.endswith(":dask") else "numpy"
         clsname = clsname.split(":")[0]
